@@ -9,7 +9,7 @@ def run(tier):
     run = Run("C13", tier)
     run.confirm_known()
     conds = []
-    to = 400 if tier == "quick" else 2400
+    to = 700 if tier == "quick" else 2400
     for spec, q, t in FRAG_SPECS:
         n = q if tier == "quick" else t
         env = {"H_SPEC": spec, "H_LEN": str(n)}
